@@ -112,6 +112,9 @@ def opsBackends (op : String) (j : Json) : Option (Except String Json) :=
       | .ok (rows, hdr) =>
         pure (Json.mkObj [("outcome", "ok"), ("rows", Json.arr (rows.map rowJson).toArray),
           ("header", Json.arr (hdr.map strsJson).toArray)])
+  | "be.path_parts" => some do
+      let n ← getStr j "name"
+      pure (Json.mkObj [("stem", jstr (pathStem n)), ("suffix", jstr (pathSuffix n))])
   | "be.excel_guard" => some do
       -- guard of `excel_roundtrip` on an abstract workbook and decoded grids; the dict container
       let wb ← (← getArr j "sheets").toList.mapM sheetOfJson
@@ -129,7 +132,7 @@ def opsBackends (op : String) (j : Json) : Option (Except String Json) :=
       -- text containers through a channel; binary parsers answer readError on text
       let t ← getStr j "text"
       let ch : Channel := match j.getObjVal? "channel" with
-        | .ok (.str "path") => .path (getStrD j "stem" "data") (getStrD j "suffix" "")
+        | .ok (.str "path") => .path (getStrD j "name" "data.md")
         | .ok (.str "bytes") => .bytes
         | .ok (.str "bytesio") => .bytesIO (getNatD j "pos" 0)
         | .ok (.str "file") => .file (getNatD j "pos" 0)
